@@ -54,7 +54,9 @@ CHECKS = {
     "C08": dict(cat="exploration", engine="E1-world(scheduler)+E4-direct", tech=T_WORLD + "multiset equality (appended rows == consolidated rows == union of reported rows) under schedules at lock- and file-operation granularity; tiny configuration enumerated up to 2 pre-emptions in the thorough tier",
                 text="Runner and collector processes calling the real ResultsAggregator are interleaved at every lock operation and every "
                      "file open/commit/remove; nothing may be lost, duplicated, changed or reported twice and the consolidated file must "
-                     "always parse."),
+                     "always parse. One case in ten is a whole generated submission (real run-jobs / try-submit-jobs processes): at "
+                     "completion every job that ran has exactly one consolidated row, no row is left in a node file and every "
+                     "consolidated row's job was reported to a round (recorded as done)."),
     "C10": dict(cat="exploration", engine="E1-world(scheduler)+E4-direct", tech="model-based testing: generated operation sequences over several Cluster handles against a reference model (Hypothesis), plus generated bursts of concurrent submitter processes in the simulation world",
                 text="Operation sequences over 2-4 handles on distinct hosts: promotion iff free, stale writes rejected with files "
                      "byte-identical, fresh writes accepted; bursts of try-submit-jobs/show-status processes interleaved at file-operation "
@@ -77,8 +79,8 @@ CHECKS = {
     "C18": dict(cat="exploration", engine="E4-direct", tech="property-based testing (Hypothesis): independent expectation for generated SLURM scripts, conservative-decision oracle over generated squeue/sbatch texts, reference model of the retry loop",
                 text="Scripts for 1-3 groups through the real objects vs an independent expectation; squeue texts over the full state "
                      "vocabulary vs the completion decision; sbatch responses vs GOOD/ERROR; scripted failure sequences vs the retry loop; plus "
-                     "whole generated submissions in the simulation world: a batch that is pending or has a job process running is never "
-                     "dropped from, or left out of, the recorded active ids.",
+                     "whole generated submissions in the simulation world (with unusual SLURM states and status-query outages): a batch "
+                     "the simulated scheduler holds as PENDING/RUNNING is never dropped from, or left out of, the recorded active ids.",
                 note="trusted base: scripted stand-in for jade.utils.run_command._run_command (the process boundary); option spelling compared modulo '_'/'-'"),
     "C19": dict(cat="exploration", engine="E4-direct", tech="property-based testing (Hypothesis) with real child processes: argv/env round-trip through an independent POSIX quoter and a /bin/sh probe",
                 text="Argument lists over a quoting/whitespace/special-character alphabet are rendered by an independent quoter, run for "
